@@ -139,6 +139,21 @@ def main():
                             if sp1 == sp2 and n == 2 and len(sp1) <= 2:
                                 items.append(("pre", variant, part, singles, n, sp1, sp2, mt))
     results = pmap(run_case, items, limit=1200 if quick else 7200, workers=14)
+    # order expansion of S^(-1/2) = (1 + sum_k S^(k))^(-1/2) for all overlap values
+    from vlib import series
+    from adcgen import GroundState, Operators, IntermediateStates
+    isr0 = IntermediateStates(GroundState(Operators("mp")), "pp")
+    for r in series.check(lambda n, mo: isr0.expand_S_taylor(n, mo), half=True,
+                          orders=range(0, 9 if quick else 13), timeout_ms=TIMEOUT, seed=seed()):
+        api = f"IntermediateStates.expand_S_taylor({r['order']}, min_order={r['min_order']})"
+        run.add_outcome("series/s_root", r, sample={"api": api, "expansion": r["out"][:160], "verdict": r["status"]}
+                        if r["status"] == "equal" and r["order"] >= 4 else None,
+                        distinct_key=api, nontrivial=r["order"] >= r["min_order"])
+        if r["status"] == "differ":
+            run.violation(f"{api}", f"{api} = {r['out'][:200]} is not the lambda^{r['order']} coefficient of (1+x)^(-1/2)",
+                          {"api": api, "output": r["out"], "witness": r.get("witness")})
+        elif r["status"] == "harness":
+            run.harness_error(f"series: solver model does not reproduce for {api}")
     nz = 0
     for r in results:
         st = r.get("status")
